@@ -18,7 +18,7 @@ EXPLANATION = (
     "and range.lower()/upper(); C02/R3 a family that becomes empty is removed as a whole term (term[delete]) — with new empty the "
     "grammar contains no accept; C02/R4 then/reject is emitted unconditionally as the last child of every Update; C02/R5 the payload "
     "root is configuration/policy-options/policy-statement, every element name is a string literal from the fixed set, the only "
-    "sender is Client<_,Open>::load_config and Client<_,Open> comes only from open_db(self.junos.ephemeral_db()). Not decided: that "
+    "sender is Client<_,Open>::load_config and Client<_,Open> comes only from open_db(self.junos.ephemeral_db()); C02/R6 the `old` handed to the writer is the installed set of the same policy and family (compare table, shared with C01/R1) — otherwise ranges that left the evaluated set are never deleted; C02/R7 the candidate and the installed reader normalise policy names by the same chain, so compare pairs a policy with its own installed state. Not decided: that "
     "the evaluated set is the right one (C11), Junos merge semantics, the accept-set of a concrete resulting policy."
 )
 
@@ -117,6 +117,85 @@ def run(ctx):
     chk.instance("C02/R5", "element names emitted by the agent ⊆ the policy-statement vocabulary (%s)" % sorted(names), fn, None,
                  holds=not extra, key="C02/R5 element-vocabulary %s" % sorted(extra))
     r5_sender(chk, fx)
+    r6_old_is_installed(chk, fx)
+    r7_name_spaces_agree(chk, fx)
+
+
+class _Rename:
+    """Record another property's rule instances under this property's rule id."""
+    def __init__(self, chk, old, new):
+        self._chk, self._old, self._new = chk, old, new
+
+    def instance(self, rule, what, fn, loc=None, holds=True, key=None, detail=None):
+        return self._chk.instance(rule.replace(self._old, self._new), what, fn, loc, holds=holds,
+                                  key=(key.replace(self._old, self._new) if key else None), detail=detail)
+
+    def floor(self, name, counted, minimum):
+        return self._chk.floor(name.replace(self._old, self._new), counted, minimum)
+
+    def __getattr__(self, a):
+        return getattr(self._chk, a)
+
+
+def r6_old_is_installed(chk, fx):
+    """Deletions are computed against `old`.  If the writer is not handed the *installed* set of the same policy and family
+    (old = None, or an emptied / foreign set), ranges that left the evaluated set are never deleted and a family that became empty
+    keeps its accepting term: the installed policy accepts routes outside the evaluated set.  Same extraction as C01/R1."""
+    from . import c01
+    c01.r1_compare(_Rename(chk, "C01/R1", "C02/R6"), fx)
+
+
+def _name_chain(t):
+    """For a policy-statement reader: the call chain between read_text(<name>) and Name::new, as a tuple of short names."""
+    out = []
+    body = T.user_body(t)
+    lets = {}
+    for s in T.walk(body):
+        if s.get("k") == "LetStmt" and s.get("init") is not None:
+            lets[T.pat_str(s["pat"])] = s["init"]
+    for asg in T.find(body, "Assign"):
+        if X.ntext(asg["lhs"]) != "name":
+            continue
+        e = T.peel(asg["rhs"])
+        chain = []
+        while True:
+            e = T.peel(e)
+            if e.get("k") == "Try":
+                e = e["arg"]
+            elif e.get("k") == "Adt" and e.get("variant") == "Some":
+                e = e["fields"][0]["expr"]
+            elif e.get("k") == "Call" and e.get("fn") and e.get("args"):
+                chain.append(T.short(e["fn"], 2))
+                e = e["args"][0]
+            elif e.get("k") == "Var" and e["name"] in lets:
+                e = lets[e["name"]]
+            else:
+                break
+        out.append((tuple(c for c in chain if c not in ("Result::map_err", "Deref::deref", "From::from", "Into::into", "BytesEnd::name", "BytesStart::to_end")), X.ntext(e)))
+    return out
+
+
+def r7_name_spaces_agree(chk, fx):
+    """compare() pairs a managed policy with its installed counterpart by *name*.  The two readers that produce those names
+    (Maybe<Candidate> from the running config, Maybe<Installed> from the ephemeral instance) must normalise the <name> text
+    identically — otherwise a policy whose name contains whitespace padding or an XML metacharacter is treated as not installed
+    (old = None): stale ranges are never withdrawn, and a Delete goes to a name that does not exist."""
+    F_ = AC.AGENT + "::policies::fetch::"
+    rd = {}
+    for which in ("Candidate", "Installed"):
+        n = "<" + F_ + "Maybe<" + AC.AGENT + "::policies::" + which + "> as netconf::message::ReadXml>::read_xml"
+        t = fx.thir.get(n)
+        if t is None:
+            raise F.AnchorLost("reader %s" % n)
+        chk.analysed(n)
+        ch = _name_chain(t)
+        if len(ch) != 1:
+            raise F.AnchorLost("%s: assignment of the policy name (%d found)" % (n, len(ch)))
+        rd[which] = (n, ch[0], t)
+    a, b = rd["Candidate"][1], rd["Installed"][1]
+    chk.instance("C02/R7", "candidate and installed policy names are normalised by the same chain (%s vs %s)" % (" <- ".join(a[0]), " <- ".join(b[0])),
+                 rd["Installed"][0], loc_of(rd["Installed"][2].get("sp")), holds=a[0] == b[0] and "NsReader::read_text" in a[0],
+                 key="C02/R7 policy-name normalisation differs between readers")
 
 
 def r5_sender(chk, fx):
